@@ -31,6 +31,9 @@ pub enum Op {
     RejectReversed { idx: u16, rate: Fl },
     /// a good quote together with an unknown pair
     RejectMix { good: u16, rate: Fl, lhs: u8, rhs: u8 },
+    /// a quoted pair with a settlement date that differs from the market's (another date, or a date
+    /// against none): refused unless it is the market's only quote
+    RejectSettlement { idx: u16, rate: Fl, shift: i8 },
 }
 
 #[derive(Clone, Debug, Serialize, Deserialize)]
@@ -104,6 +107,7 @@ fn op() -> impl Strategy<Value = Op> {
         1 => (0u8..12, 0u8..12, log_uniform(1e-2, 1e2)).prop_map(|(lhs, rhs, rate)| Op::RejectUnknown { lhs, rhs, rate }),
         1 => (any::<u16>(), log_uniform(1e-2, 1e2)).prop_map(|(idx, rate)| Op::RejectReversed { idx, rate }),
         1 => (any::<u16>(), log_uniform(1e-2, 1e2), 0u8..12, 0u8..12).prop_map(|(good, rate, lhs, rhs)| Op::RejectMix { good, rate, lhs, rhs }),
+        1 => (any::<u16>(), log_uniform(1e-2, 1e2), -3i8..=3).prop_map(|(idx, rate, shift)| Op::RejectSettlement { idx, rate, shift }),
     ]
 }
 
@@ -392,7 +396,7 @@ impl Property for C10 {
                         }
                     }
                 }
-                Op::RejectUnknown { .. } | Op::RejectReversed { .. } | Op::RejectMix { .. } => {
+                Op::RejectUnknown { .. } | Op::RejectReversed { .. } | Op::RejectMix { .. } | Op::RejectSettlement { .. } => {
                     let settle = model[0].q.settle;
                     let mk = |lhs: u8, rhs: u8, rate: f64| FXRate::try_new(CCYS[lhs as usize % 12], CCYS[rhs as usize % 12], Number::F64(rate), settle.map(day_to_ndt));
                     let quoted = |l: u8, r: u8| model.iter().any(|q| q.q.lhs % 12 == l % 12 && q.q.rhs % 12 == r % 12);
@@ -420,6 +424,19 @@ impl Property for C10 {
                             let q = &model[pick(*good, model.len())].q;
                             vec![mk(q.lhs, q.rhs, rate.0).expect("pair"), mk(*lhs, *rhs, rate.0).expect("pair")]
                         }
+                        Op::RejectSettlement { idx, rate, shift } => {
+                            if model.len() < 2 {
+                                continue; // the only quote of a market may change its settlement
+                            }
+                            v.label("op:reject-other-settlement");
+                            let q = &model[pick(*idx, model.len())].q;
+                            let other = match (settle, *shift) {
+                                (Some(_), 0) => None,
+                                (Some(d), s) => Some(d + s as i64),
+                                (None, s) => Some(19_000 + s as i64),
+                            };
+                            vec![FXRate::try_new(CCYS[q.lhs as usize % 12], CCYS[q.rhs as usize % 12], Number::F64(rate.0), other.map(day_to_ndt)).expect("pair")]
+                        }
                         _ => unreachable!(),
                     };
                     n_rejected += 1;
@@ -427,7 +444,7 @@ impl Property for C10 {
                     match catch(|| fxr.update(upd)) {
                         Ok(Err(_)) => {}
                         Ok(Ok(())) => {
-                            v.fail("an update naming an unknown pair was accepted", step.clone());
+                            v.fail(if matches!(op, Op::RejectSettlement { .. }) { "an update with a settlement date other than the market's was accepted" } else { "an update naming an unknown pair was accepted" }, step.clone());
                             return v;
                         }
                         Err(p) => {
@@ -465,7 +482,7 @@ impl Property for C10 {
     }
 
     fn rule(&self) -> String {
-        "random valid markets (trees on 2-8 currencies as in C09; each quote a plain float or, 25%, a dual number with 0-2 variables of its own) and histories of 0-12 operations: update of 1-3 existing pairs (new rate - or, 20%, a re-quote at the current value - and number kind), set derivative order 0/1/2, refused updates (unknown pair, quoted pair reversed, good + unknown mix); interpreted against a model holding the latest quotes, the whole history shrinks as one value. After construction and after EVERY step all n*n rates are compared with the path products of the latest quotes (1e-12), their first-order sensitivities BY NAME (fx_xxxyyy for float quotes, own variables for dual quotes, the reversed spelling and every off-path quote must be zero) with +-cross/quote and the chain rule (1e-10), and at order 2 the Hessian with the analytic second derivatives; after an update also with a market built directly from the latest quotes; a refused update must return an error, leave == true against a clone and every rate bit-identical; switching order must keep quoted pairs bit-identical and crosses to 1e-12 and return numbers of the requested order. Non-trivial: >= 1 successful update after an order switch and >= 1 refused update.".into()
+        "random valid markets (trees on 2-8 currencies as in C09; each quote a plain float or, 25%, a dual number with 0-2 variables of its own) and histories of 0-12 operations: update of 1-3 existing pairs (new rate - or, 20%, a re-quote at the current value - and number kind), set derivative order 0/1/2, refused updates (unknown pair, quoted pair reversed, good + unknown mix, a quoted pair with another settlement date); interpreted against a model holding the latest quotes, the whole history shrinks as one value. After construction and after EVERY step all n*n rates are compared with the path products of the latest quotes (1e-12), their first-order sensitivities BY NAME (fx_xxxyyy for float quotes, own variables for dual quotes, the reversed spelling and every off-path quote must be zero) with +-cross/quote and the chain rule (1e-10), and at order 2 the Hessian with the analytic second derivatives; after an update also with a market built directly from the latest quotes; a refused update must return an error, leave == true against a clone and every rate bit-identical; switching order must keep quoted pairs bit-identical and crosses to 1e-12 and return numbers of the requested order. Non-trivial: >= 1 successful update after an order switch and >= 1 refused update.".into()
     }
 
     fn floors(&self, tier: Tier) -> Vec<Floor> {
@@ -477,6 +494,7 @@ impl Property for C10 {
             Floor { label: "op:reject-unknown-pair", min: n / 10 },
             Floor { label: "op:reject-reversed-pair", min: n / 10 },
             Floor { label: "op:reject-good+unknown", min: n / 10 },
+            Floor { label: "op:reject-other-settlement", min: n / 10 },
             Floor { label: "sensitivity:second-order-checked", min: n },
             Floor { label: "sensitivity:inverted-quote", min: n },
             Floor { label: "quotes:some-dual", min: n / 5 },
